@@ -10,6 +10,7 @@ class TypedValue:
     requires = []
     raises = []
     pure_fn = "typed_fn"
+    opts = {"decreases": "NodeCoords nesting depth of `value` (a finite acyclic wrapper chain)"}
     ensures = [
         "implies(value is None, result is None)",
         "implies(value is not None and not isinstance(value, NodeCoords) and str(value).lower() == 'true', same(result, True))",
